@@ -60,22 +60,6 @@ func canariesOf(name string, pemBytes []byte) ([]canary, error) {
 		return nil, fmt.Errorf("%s: no PEM block", name)
 	}
 	var out []canary
-	// slices of the PEM body (base64 of the DER) and of the DER itself
-	b64 := base64.StdEncoding.EncodeToString(blk.Bytes)
-	for _, off := range []int{0, len(b64)/2 - 20, len(b64) - 44} {
-		if off >= 0 && off+40 <= len(b64) {
-			out = append(out, canary{name, fmt.Sprintf("pem-body[%d:+40]", off), []byte(b64[off : off+40])})
-		}
-	}
-	u := base64.RawURLEncoding.EncodeToString(blk.Bytes)
-	if len(u) > 60 {
-		out = append(out, canary{name, "der-base64url[10:+40]", []byte(u[10:50])})
-	}
-	if len(blk.Bytes) > 40 {
-		mid := len(blk.Bytes)/2 - 12
-		out = append(out, canary{name, "der-raw[mid:+24]", blk.Bytes[mid : mid+24]})
-		out = append(out, canary{name, "der-hex[mid:+24]", []byte(hex.EncodeToString(blk.Bytes[mid : mid+24]))})
-	}
 	var key any
 	var err error
 	switch blk.Type {
@@ -89,19 +73,65 @@ func canariesOf(name string, pemBytes []byte) ([]canary, error) {
 	if err != nil {
 		return nil, fmt.Errorf("%s: %w", name, err)
 	}
+	var secrets [][]byte // the private parameters as they lie in the DER
 	switch k := key.(type) {
 	case *ecdsa.PrivateKey:
-		out = append(out, intForms(name, "d", k.D, (k.Params().BitSize+7)/8)...)
+		w := (k.Params().BitSize + 7) / 8
+		out = append(out, intForms(name, "d", k.D, w)...)
+		fixed := make([]byte, w)
+		k.D.FillBytes(fixed)
+		secrets = append(secrets, fixed)
 	case *rsa.PrivateKey:
 		out = append(out, intForms(name, "d", k.D, 0)...)
+		secrets = append(secrets, k.D.Bytes())
 		for i, p := range k.Primes {
 			out = append(out, intForms(name, fmt.Sprintf("prime%d", i), p, 0)...)
+			secrets = append(secrets, p.Bytes())
 		}
 	case ed25519.PrivateKey:
 		seed := new(big.Int).SetBytes(k.Seed())
 		out = append(out, intForms(name, "seed", seed, 32)...)
+		secrets = append(secrets, k.Seed())
 	default:
 		return nil, fmt.Errorf("%s: unknown key type %T", name, key)
+	}
+	// the part of the PEM body (base64 of the DER, as one string and line by line) and of its base64url twin that encodes a
+	// private parameter — and nothing else: the ASN.1 header is the same for every key of a type and the tail is the PUBLIC key
+	b64 := base64.StdEncoding.EncodeToString(blk.Bytes)
+	b64u := base64.RawURLEncoding.EncodeToString(blk.Bytes)
+	for si, sb := range secrets {
+		off := bytes.Index(blk.Bytes, sb)
+		if off < 0 {
+			continue
+		}
+		from, to := off*4/3+2, (off+len(sb))*4/3-2 // interior of the characters that encode the parameter
+		if to > len(b64u) {
+			to = len(b64u)
+		}
+		if to-from < 20 {
+			continue
+		}
+		end := from + 40
+		if end > to {
+			end = to
+		}
+		out = append(out, canary{name, fmt.Sprintf("pem-body[secret%d]", si), []byte(b64[from:end])})
+		out = append(out, canary{name, fmt.Sprintf("der-base64url[secret%d]", si), []byte(b64u[from:end])})
+		for line := from / 64; line*64 < to; line++ {
+			lf, lt := line*64, line*64+64
+			if lf < from {
+				lf = from
+			}
+			if lt > to {
+				lt = to
+			}
+			if lt-lf >= 20 {
+				if lt-lf > 40 {
+					lt = lf + 40
+				}
+				out = append(out, canary{name, fmt.Sprintf("pem-line[secret%d]", si), []byte(b64[lf:lt])})
+			}
+		}
 	}
 	return out, nil
 }
